@@ -1,6 +1,7 @@
 package props
 
 import (
+	"regexp"
 	"fmt"
 	"strings"
 	"testing"
@@ -139,6 +140,26 @@ func condDynamicBranch(expr hclsyntax.Expression, ctxs ...*hcl.EvalContext) bool
 	return found
 }
 
+var negZero = regexp.MustCompile(`(^|[^0-9.])-0([^0-9.]|$)`)
+
+// negativeZeroOnly reports whether the two results differ only in the sign of a zero:
+// cty numbers compare -0 and 0 as equal (so a conditional on an unknown condition with
+// the branches -0 and 0 is "decided"), but convert them to the strings "-0" and "0".
+func negativeZeroOnly(a, b cty.Value) bool {
+	norm := func(v cty.Value) string {
+		u, _ := v.UnmarkDeep()
+		s := u.GoString()
+		for {
+			t := negZero.ReplaceAllString(s, "${1}0${2}")
+			if t == s {
+				return s
+			}
+			s = t
+		}
+	}
+	return norm(a) == norm(b)
+}
+
 func keyStr(k cty.Value) string {
 	if k.Type() == cty.String {
 		return fmt.Sprintf("%q", k.AsString())
@@ -247,6 +268,10 @@ func checkAbstraction(c *hx.Case, sc *gen.Scope, expr hclsyntax.Expression, absN
 		if msg := consistent(absVal, cv, "result"); msg != "" {
 			if condDynamicBranch(expr, absCtx, ctx) && c.Known("cond-unconverted-when-other-branch-dynamic") {
 				c.Class("excluded_known_cond_dynamic")
+				continue
+			}
+			if negativeZeroOnly(absVal, cv) && c.Known("negative-zero-renders-differently") {
+				c.Class("excluded_known_negative_zero")
 				continue
 			}
 			c.Set("concretisation", concDesc)
